@@ -228,3 +228,14 @@ Theorem C13_source_thin_bodies :
   thin_of "Debug for GenericArray<T,N>" "fmt" = Some "self . as_slice () . fmt (fmt)" /\
   thin_of "Hash for GenericArray<T,N>" "hash" = Some "Hash :: hash (self . as_slice () , state)".
 Proof. repeat split. Qed.
+
+(* the ONLY impls of Borrow / BorrowMut / AsRef / AsMut / Hash / Debug for (or from) array types are these
+   (regenerated headers): a further `Borrow<Q>` form would have to hash like the array to keep map look-ups working *)
+Theorem C13_source_view_headers :
+  map (fun r => snd (fst r))
+      (filter (fun r => (mentions "Borrow" (snd (fst r)) || mentions "AsRef<" (snd (fst r)) || mentions "AsMut<" (snd (fst r))
+                         || mentions "Hash for" (snd (fst r)) || mentions "Debug for GenericArray<" (snd (fst r)))%bool) gen_impl_bounds)
+  = ["Debug for GenericArray<T,N>"; "Borrow<[T]> for GenericArray<T,N>"; "BorrowMut<[T]> for GenericArray<T,N>";
+     "AsRef<[T]> for GenericArray<T,N>"; "AsMut<[T]> for GenericArray<T,N>"; "Hash for GenericArray<T,N>";
+     "AsRef<[T;N]> for GenericArray<T,ConstArrayLength<N>>"; "AsMut<[T;N]> for GenericArray<T,ConstArrayLength<N>>"].
+Proof. reflexivity. Qed.
